@@ -90,6 +90,21 @@ def run_path(I, st, c, fi, res):
         st.oblige("%s.hint[%s]" % (short, cl.label), g, meta={"kind": "hint", "clause": cl.text, "props": c.props})
     outcome = None
     result = NONE
+    if fi.is_ctxmgr:
+        # a @contextmanager generator verified on its own: at the yield an arbitrary `with` body runs -- a suspension
+        # point (rely of the contract) that ends normally or raises an arbitrary exception into the generator
+        from . import generators, asyncio_model
+
+        def body(v):
+            asyncio_model.snapshot(I, st)
+            asyncio_model.suspend(I, st)
+            k = st.choose(3, "with-body outcome")
+            if k == 1:
+                raise RaiseExc(ExcVal("Exception", False))
+            if k == 2:
+                raise RaiseExc(ExcVal("CancelledError", True))
+            return NONE
+        fr.yield_handler = generators._YieldHandler(body)
     try:
         I.exec_block(st, fi.node.body)
         outcome = "normal"
@@ -215,7 +230,7 @@ def frame_obligations(I, st, c, fi, env, short):
             bykey.setdefault(key, []).append(v)
     for key in sorted(st.written):
         cur = st.heap[key]
-        old = st.heap0.get(key)
+        old = getattr(st, "frame_base", {}).get(key, st.heap0.get(key))
         if old is None or cur is old or cur.eq(old):
             continue
         if key == "$cls":
@@ -223,6 +238,8 @@ def frame_obligations(I, st, c, fi, env, short):
         o = z3.FreshConst(RefS, "fo")
         excl = [z3.Or(v.none, o != v.term) if not z3.is_false(v.none) else o != v.term for v in bykey.get(key, [])]
         for ev in every:
+            if ev.only is not None and key not in ev.only:
+                continue
             if key == "$len" or key.startswith("$dom") or key.startswith("$val") or key.startswith("$items"):
                 excl.append(z3.Not(ev.covers_content(I, st, o)))
             else:
